@@ -38,6 +38,33 @@ fn run_inner(sc: &J) -> Result<Option<String>, String> {
                 Err(_) => Ok(None),
             }
         }
+        // C02/C01: conformance vectors produced by an INDEPENDENT reference encoder (tools/mkvectors.py, written from the
+        // specification): encode(value) must be exactly `hex`; decode(hex) must be the value; every alternative spec-conforming
+        // encoding in `alt` (several blocks, negative counts with byte sizes) must decode to the same value, consuming everything
+        "datum_vector" => {
+            let schema = Schema::parse_str(sc["schema"].as_str().ok_or("schema")?).map_err(|e| e.to_string())?;
+            let value = crate::dsl(&sc["value"])?;
+            let want = jhex(sc, "hex");
+            let value = value.resolve(&schema).map_err(|e| format!("vector value does not fit its schema: {e}"))?;
+            let got = apache_avro::to_avro_datum(&schema, value.clone()).map_err(|e| format!("encode: {e}"))?;
+            // a map's entry order is unspecified: compare maps through decoding only
+            let has_map = sc["schema"].as_str().unwrap_or("").contains("\"map\"");
+            if got != want && !has_map { return Ok(Some(format!("encode({value:?}) = {:02x?}, the reference encoding is {:02x?}", got, want))); }
+            let mut inputs = vec![want.clone()];
+            if let Some(a) = sc["alt"].as_array() { for x in a { inputs.push(crate::hex(x.as_str().unwrap_or(""))); } }
+            for inp in inputs {
+                let mut rd = &inp[..];
+                match apache_avro::from_avro_datum(&schema, &mut rd, None) {
+                    Ok(v) if rd.is_empty() && (v == value || apache_avro::to_avro_datum(&schema, v.clone()).ok() == Some(got.clone())) => {}
+                    other => return Ok(Some(format!("decode({:02x?}) = {other:?} with {} byte(s) left; expected {value:?}", inp, rd.len()))),
+                }
+                // the schema-aware deserializer accepts the same bytes (into the generic Value through serde)
+                let dr = apache_avro::reader::datum::GenericDatumReader::builder(&schema).build().map_err(|e| e.to_string())?;
+                let mut rd = &inp[..];
+                if let Err(e) = dr.read_value(&mut rd) { return Ok(Some(format!("GenericDatumReader rejects {:02x?}: {e}", inp))); }
+            }
+            Ok(None)
+        }
         // C01/C02: zig_i64 emits exactly the specification's zig-zag varint
         "zig_i64" => {
             let n = sc["n"].as_i64().ok_or("n")?;
